@@ -284,7 +284,8 @@ def assigned_engine(ex: ObjExec, cnt: Counter) -> MObj:
     return eng
 
 
-def py_roundtrip(check: Check, rule: str = "PY-sem") -> None:
+def py_roundtrip(check: Check, rule: str = "PY-sem") -> bool:
+    """-> True when every model engine was decided under every alias setting."""
     p = check.program
     eng_c = p.cls("Engine")
     rep_fn = eng_c.lookup("__repr__")
@@ -382,6 +383,7 @@ def py_roundtrip(check: Check, rule: str = "PY-sem") -> None:
         where = loc(rep_fn)
         check.require(hit is None, rule, f"{construct}/{aspect}", good if hit is None else hit[0], where, {}, exhaustive=True, cases=cases)
     check.notes.append(f"{rule}: {cases} model engines x alias settings, {compared} fields compared")
+    return not undecided
 
 
 def evaluate_text(ex: ObjExec, text: str, env0: dict[str, Any]) -> Any:
